@@ -139,7 +139,8 @@ def ts_case(rng, count):
         if i % 3 == 0:
             anchors.append([t, rng.choice([0, 1, 999999, 10**6, rng.randint(0, 10**13), 10**13, rng.randint(10**13, 10**16)])])
         t += rng.choice([1, 1, 2, 7, 1000])
-    return {"resolution": res, "tempos": [[0, 10**9]], "timesigs": timesigs, "anchors": anchors}
+    md = {"resolution": res, "offset": rng.choice([0, 2, 30, 99999]), "preview_start": rng.choice([0, 15]), "difficulty": rng.choice([0, 4])}
+    return {"resolution": res, "metadata": md, "tempos": [[0, 10**9]], "timesigs": timesigs, "anchors": anchors}
 
 
 def digits_case(rng, count):
